@@ -34,7 +34,8 @@ Inductive case :=
 | Csym (ops : list (rot (T:=float))) (shape : list nat) (data flat : list (list float))
        (v2 : list (list (list float))) (all uniq : list (list float)) (mult : list nat) (idx : list Z)
        (mprop : list nat)
-| Cang (self other2 : list (list float)) (out : list float)
+| Cang (ops : list (rot (T:=float))) (sS sO : list nat) (self other : list (list float))
+       (raised : bool) (rshape : list nat) (out : list float)
 | Crnd (idx : list float) (M : nat) (out : list Z)
 | Cuniq (ops : list (rot (T:=float))) (flat base : list (list float)) (orbits : list (list (list float)))
         (out : list (list float)).
@@ -48,11 +49,11 @@ Definition ok (c : case) : bool :=
       && all2 rows_close (outer_rows (ract_row FOps) ops flat) v2
       && frows_eqb (flattenF2 [] n v2) all
       && frows_eqb u uniq && nats_eqb m mult && zs_eqb i idx
-      && nats_eqb mprop m
-  | Cang self other2 out =>
-      match angle_with_sym_num FOps f_round12c self other2 with
-      | Some a => ang_close a out
-      | None => false
+      && nats_eqb mprop (unflattenF 0%nat shape m)
+  | Cang ops sS sO self other raised rshape out =>
+      match angle_with_sym_num FOps f_round12c ops sS sO self other with
+      | Some (s, a) => negb raised && nats_eqb s rshape && ang_close a out
+      | None => raised
       end
   | Crnd idx M out => zs_eqb (fround_indices M idx) out
   | Cuniq ops flat base orbits out =>
@@ -69,7 +70,8 @@ def case_coq(c):
         return (f"Csym {rots(c['ops'])} {nats(c['shape'])} {frows(c['data'])} {frows(c['flat'])} {frows3(c['v2'])} "
                 f"{frows(c['all'])} {frows(c['uniq'])} {nats(c['mult'])} ({zlist(c['idx'])})%Z {nats(c['mprop'])}")
     if k == "ang":
-        return f"Cang {frows(c['self'])} {frows(c['other2'])} {frow(c['out'])}"
+        return (f"Cang {rots(c['ops'])} {nats(c['sshape'])} {nats(c['oshape'])} {frows(c['self'])} {frows(c['other'])} "
+                f"{'true' if c['raised'] else 'false'} {nats(c['rshape'])} {frow(c['out'])}")
     if k == "rnd":
         return f"Crnd {frow(c['idx'])} {int(c['max_index'])}%nat ({zlist(c['out'])})%Z"
     if k == "uniq":
@@ -92,16 +94,16 @@ def correspond(ck, cases, chunk=40):
         for b in bad:
             c = cases[i + b]
             what = {"sym": f"Miller.symmetrise / multiplicity (group {c.get('group')}, shape {c.get('shape')})",
-                    "ang": f"Miller.angle_with(use_symmetry=True) (group {c.get('group')})",
+                    "ang": f"Miller.angle_with(use_symmetry=True) (group {c.get('group')}, shapes {c.get('sshape')} / {c.get('oshape')})",
                     "rnd": "_round_indices", "uniq": f"Miller.unique(use_symmetry=True) (group {c.get('group')})"}[c["k"]]
             small = {k: v for k, v in c.items() if k not in ("v2", "ops", "all", "orbits")}
             ck.disagreement(f"model and implementation differ on {what}", small)
 
 
-# the witnesses of the _refuted theorems (Proofs/C10Witness.v) as they must
-# come out of the implementation
-WITNESS = {
-    "mult_2x3": [6, 48, 12, 6, 8, 24],     # C10_multiplicity_nd_refuted: column-major / row-major mix-up
+# the inputs of the two repaired defects (Proofs/C10Inst.v: multiplicity_nd_example,
+# angle_elementwise_example) as they must come out of the repaired implementation
+REPAIRED = {
+    "mult_2x3": [6, 12, 8, 48, 6, 24],     # C10_multiplicity_nd_nonvacuous (was [6, 48, 12, 6, 8, 24])
     "mult_each": [6, 12, 8, 48, 6, 24],
 }
 
@@ -134,10 +136,18 @@ def run(tier, seed):
     correspond(ck, cases)
     for f in out["fails"]:
         ck.failure(f["sig"], f["what"], f["replay"])
-    rep = [k for k, want in WITNESS.items() if out["witness"].get(k) != want]
     w = out["witness"]
-    if not (abs(w.get("angle_pair", [0, 0])[1] - w.get("angle_each", [0, 1])[1]) > 1e-3):
-        rep.append("angle_pair")
+    # repaired defects: the former witnesses now show the correct values (a
+    # regression is also reported by the oracle as a VIOLATION)
+    bad = [k for k, want in REPAIRED.items() if w.get(k) != want]
+    ap, ae = w.get("angle_pair", [0, 0]), w.get("angle_each", [0, 1])
+    if not (len(ap) == 2 and abs(ap[1] - ae[1]) < 1e-9 and abs(ap[1] - 0.6154797086703874) < 1e-6):
+        bad.append("angle_pair")
+    ck.cov["repaired_witnesses_hold"] = not bad
+    if bad:
+        ck.notes.append("repaired defect reproduces again for witness(es): " + ", ".join(bad))
+    # remaining findings: the witnesses of the _refuted theorem / known findings still reproduce
+    rep = []
     if all(v in (3, 6, 12) for v in w.get("threshold_mult", {}).values()):
         rep.append("threshold_mult")
     if w.get("unique_equiv_pair") != 2:
@@ -151,7 +161,7 @@ def run(tier, seed):
                       "sets of 1..8 vectors in 1-3 dimensional shapes drawn from the strata general position / on "
                       "rotation axes / in mirror planes / mixed / parallel-antiparallel-duplicate pairs / images at a "
                       "half-unit of the 10th decimal (threshold) / integer lattice indices (uvw, hkl); angle_with with "
-                      "one, equally many and more other vectors; round on scaled coprime indices in uvw/hkl/UVTW/hkil "
+                      "one, equally many and more other vectors, n-d operands that broadcast and shapes that do not; round on scaled coprime indices in uvw/hkl/UVTW/hkil "
                       "with max_index 12..40; every case is compared Coq-model vs implementation (flatten order, outer "
                       "product to 1e-9, de-duplication/assembly bit-exact on the implementation's own outer product, "
                       "angles to 8e-6, rounded indices exact) and judged by a brute-force oracle using the group's "
